@@ -673,9 +673,18 @@ def _interval(ctx: Ctx, c: Collector) -> None:
             from . import tables
             from .. import boolfn
             ROOT = ("attr", common, "parent")
+            # the two flags are non-negative integers (or Booleans): `x != 0`, `x > 0` are `x`, `x == 0` is `not x`; `parent is None` is `not parent`
+            flag_forms = {}
+            for fl in (ts, wk):
+                flag_forms.update({("cmp", "!=", fl, T.const(0)): fl, ("cmp", "!=", T.const(0), fl): fl, ("cmp", "<", T.const(0), fl): fl,
+                                   ("cmp", "==", fl, T.const(0)): ("not", fl), ("cmp", "==", T.const(0), fl): ("not", fl), ("cmp", "<=", fl, T.const(0)): ("not", fl)})
+            flag_forms.update({("cmp", "is", ROOT, T.NONE): ("not", ROOT), ("cmp", "isnot", ROOT, T.NONE): ROOT})
+
+            def nf(gs):
+                return tuple(T.replace(g, flag_forms) for g in gs)
             try:
-                rej = [(f"rej{x.idx}", without_asserts(s, x.guards)) for x in s.of_kind("raise") if x.idx < r.idx]
-                for a, fired in tables.rows([("t0", without_asserts(s, e0.guards)), ("tw", without_asserts(s, ew.guards)), ("ret", without_asserts(s, r.guards))] + rej, [ts, wk, ROOT]):
+                rej = [(f"rej{x.idx}", nf(without_asserts(s, x.guards))) for x in s.of_kind("raise") if x.idx < r.idx]
+                for a, fired in tables.rows([("t0", nf(without_asserts(s, e0.guards))), ("tw", nf(without_asserts(s, ew.guards))), ("ret", nf(without_asserts(s, r.guards)))] + rej, [ts, wk, ROOT]):
                     if "ret" not in fired or any(f.startswith("rej") for f in fired):
                         continue          # rejected (weak outside a group)
                     if a[ts] and "t0" not in fired:
